@@ -230,7 +230,12 @@ def check_lookup_predicate(prog, rep, key, table, arg_ty="char", rule="L4"):
                     return ip.decide_cmp_const(st, "Ge", x, lo)
             return None
 
-    world = W(prog, {BSEARCH: bsearch})
+    from . import common as _common
+
+    def edge(m, st, callee, args, term):
+        return _common.slice_edge(prog, m, st, callee, args)
+
+    world = W(prog, {BSEARCH: bsearch, _common.SLICE_EDGE[0]: edge, _common.SLICE_EDGE[1]: edge})
     m = ip.Machine(prog, world)
     try:
         outs = m.run(m.start(key, [ip.Sym("arg", arg_ty)]), max_paths=2000)
